@@ -3,7 +3,7 @@
   {"t0": int, "budget": {"max":..,"win":..}|null, "breaker": {...}|null,
    "policies": [policy_cfg, ...],
    "calls": [{"policy": idx, "entry": "retry"|"policy"|"retrypolicy"|"retry.ctx"|"policy.ctx"|
-              "retrypolicy.ctx"|"decorator"|"retrycfg"|"retrypolicycfg", "async": bool, "mode": "call"|"execute",
+              "retrypolicy.ctx"|"decorator"|"retrycfg"|"retrypolicycfg"|"retrypolicyattr"|"retrypolicybrk", "async": bool, "mode": "call"|"execute",
               "cfg": call_cfg, "env": env, "gap": int, "variant": {...}}]}
 
 stdout: JSON list (one per sequence) of lists (one per call) of {"trace": [...], "delivery": [...]}.
@@ -301,6 +301,10 @@ class World:
     # ---- sleep handler / before_sleep / sleeper ----
     def handler(self, who, ctx, sleep_s):
         d = nth(self.env["handler"], ctx.attempt - 1, "S")
+        if who == "policy" and self.cfg.get("handler_c"):
+            # a policy-level handler that a call-level one overrides must not be asked at all; if it is, it answers differently,
+            # so that the run (not only the record of who was asked) shows it
+            d = {"S": "D", "D": "A", "A": "S"}[d]
         self.trace.append(["H", who, ctx.attempt, ctx.klass.name, to_ticks(sleep_s), d])
         return {"S": SleepDecision.SLEEP, "D": SleepDecision.DEFER, "A": SleepDecision.ABORT}[d]
 
@@ -513,6 +517,26 @@ class Shared:
             ckw = {names.get(k, k): v for k, v in kw.items() if k != "classifier"}
             cls = {"retrycfg": (AsyncRetry if is_async else Retry), "retrypolicycfg": (AsyncRetryPolicy if is_async else RetryPolicy)}[base]
             obj = cls.from_config(RetryConfig(**ckw), classifier=kw["classifier"])
+        elif base == "retrypolicyattr":
+            # the sugar wrapper configured by attribute assignment after construction: __setattr__ must hand every option that
+            # the retry component knows on to it (only what the constructor requires is given up front; the deadline is the
+            # attribute `deadline`, a timedelta)
+            import datetime
+            cls = AsyncRetryPolicy if is_async else RetryPolicy
+            first = {k: kw[k] for k in ("classifier", "strategy", "strategies") if k in kw}
+            obj = cls(**first)
+            for k, v in kw.items():
+                if k in first:
+                    continue
+                if k == "deadline_s":
+                    obj.deadline = datetime.timedelta(seconds=v)
+                else:
+                    # (the constructor turns per_class_max_attempts=None into {}; an assignment must give the mapping itself)
+                    setattr(obj, k, dict(v or {}) if k == "per_class_max_attempts" else v)
+        elif base == "retrypolicybrk":
+            # the sugar wrapper with a breaker attached to the Policy it wraps
+            obj = (AsyncRetryPolicy if is_async else RetryPolicy)(**kw)
+            obj.policy.circuit_breaker = self.breaker if use_breaker else None
         elif base == "decorator":
             obj = ("decorator", kw)
         else:
